@@ -507,7 +507,7 @@ def macro_level(exe, fseen, byfmt, numvals=None):
     return findings, n, extra
 
 
-def ops_level(ctx, exe, K, pools):
+def ops_level(ctx, exe, K, pools, numvals=None):
     """random operation sequences on the process-wide cache: one thread vs 8 threads racing on first use"""
     rng = ctx.rng
     codes = sorted({c for _, c in K.values() if c not in ("?", "N")})
@@ -558,6 +558,8 @@ def ops_level(ctx, exe, K, pools):
         for i, (op, (ls, ds), (lp, dp)) in enumerate(zip(ops, seq, par)):
             rec = {"level": "operation sequence", "round": r, "index": i, "op": {"formatter": op[0], "locale": op[1], "value_id": op[2]},
                    "one_thread": ls, "eight_threads": lp, "icu4x_direct": ds}
+            if numvals and op[0][0] in "nc":
+                rec["op"]["value"] = numvals.get(str(op[2]))
             if ds == "PANIC":
                 if poisoned_by is None:
                     poisoned_by = op
@@ -649,6 +651,8 @@ EXPLAIN = {
 
 
 def run(ctx):
+    from checks import isolate
+    isolate.enter(ctx)
     bindir = core.cargo_build("h_fmt")
     ok, problems = core.coq_audit(ctx, PROPS, THEOREMS)
     exe = os.environ.get("C18_EXE") or os.path.join(bindir, "h_fmt")
@@ -658,7 +662,7 @@ def run(ctx):
     for name, args, o in extra:
         items.append(direct_item(name, args, o))
         meta.append({"kind": "direct", "name": name, "args": args, "impl": o, "from": "t*_format! tokens of the harness"})
-    ops_find, ops_stats = ops_level(ctx, exe, K, rt_stats["value_pools"])
+    ops_find, ops_stats = ops_level(ctx, exe, K, rt_stats["value_pools"], rt_stats["numeric_inputs"])
     doc_find, doc_stats = doc_level(exe)
     codes = core.coq_eval(ctx, "c18", PRE, items, "check")
     bad_spec = [m for m, c in zip(meta, codes) if c == 3]
@@ -744,6 +748,8 @@ def run(ctx):
 
 
 def replay(ctx, path):
+    from checks import isolate
+    isolate.enter(ctx)
     """re-run the stored failing input on the implementation (and on the model where it is a parser-level input)"""
     obj = json.load(open(path))
     rec = obj.get("failing_input") or obj.get("first_disagreeing_input") or {}
